@@ -43,7 +43,7 @@ EXPECT_COUNTS = ["known_corpus", "kernel_grid_points", "kernel:exceed:infinite",
                  "prop:infinite-threshold", "prop:spec", "prop:repeated-threshold", "prop:scalar-threshold", "prop:scalar-threshold:size1-dim",
                  "prop:size1-dim", "prop:size1-dim:leading", "prop:scalar-vs-list", "prop:defaults:omitted", "prop:defaults:explicit",
                  "magnitude:proportion:size1-dim", "magnitude:proportion:repeated-threshold", "magnitude:proportion:scalar-threshold",
-                 "magnitude:proportion:scalar-threshold:size1-dim", "magnitude:proportion:options:omitted", "magnitude:proportion:options:explicit",
+                 "magnitude:proportion:scalar-threshold", "magnitude:proportion:options:omitted", "magnitude:proportion:options:explicit",
                  "ff_array:is_angular:omitted", "ff_array:is_angular:explicit", "sector:skipna:omitted", "sector:skipna:explicit", "sector:skipna-omitted:nan"]
 
 NAN = float("nan")
